@@ -12,7 +12,7 @@ CONSTANTS
   MaxMerges = 0
   MaxSheets = 1
   KindSeq <- KindsSst
-  Rots = {0, 1, 2, 3, 4}
+  Rots = {0, 2, 4}
   Layouts <- LaySst
 CONSTRAINT Emit
 CHECK_DEADLOCK FALSE
